@@ -568,16 +568,20 @@ class EndpointLookupInterface(ThingWithCommonRD, ObservableResource):
                     def matches(x, original_matches=matches):
                         return any(original_matches(v) for v in x.split())
 
+                # The filters are evaluated right away (lists, not generators):
+                # a generator would only look up search_key and matches when
+                # consumed, at which time they have the values of the last
+                # criterion.
                 if search_key == "href":
-                    candidates = (
+                    candidates = [
                         c
                         for c in candidates
                         if matches(c.href)
                         or any(matches(r.href) for r in c.get_based_links().links)
-                    )
+                    ]
                     continue
 
-                candidates = (
+                candidates = [
                     c
                     for c in candidates
                     if (
@@ -590,7 +594,7 @@ class EndpointLookupInterface(ThingWithCommonRD, ObservableResource):
                         _link_matches(r, search_key, matches)
                         for r in c.get_based_links().links
                     )
-                )
+                ]
 
         candidates = _paginate(candidates, query)
 
@@ -628,18 +632,19 @@ class ResourceLookupInterface(ThingWithCommonRD, ObservableResource):
                     def matches(x, original_matches=matches):
                         return any(original_matches(v) for v in x.split())
 
+                # evaluated right away, see EndpointLookupInterface
                 if search_key == "href":
-                    candidates = (
+                    candidates = [
                         (e, c)
                         for (e, c) in candidates
                         if matches(c.href)
                         or matches(
                             e.href
                         )  # FIXME: They SHOULD give this as relative as we do, but don't have to
-                    )
+                    ]
                     continue
 
-                candidates = (
+                candidates = [
                     (e, c)
                     for (e, c) in candidates
                     if _link_matches(c, search_key, matches)
@@ -649,7 +654,7 @@ class ResourceLookupInterface(ThingWithCommonRD, ObservableResource):
                             matches(x) for x in e.registration_parameters[search_key]
                         )
                     )
-                )
+                ]
 
         # strip endpoint
         candidates = (c for (e, c) in candidates)
